@@ -65,7 +65,7 @@ func modelDescend(root mctx, path []int, all bool) ([]mctx, *outcome) {
 			for _, oc := range pick {
 				sub := parseRef(oc.raw, nested)
 				if !sub.wellFormed || sub.mixedWT {
-					return nil, &outcome{errc: eOther}
+					return nil, &outcome{errc: eUnconstrained}
 				}
 				next = append(next, mctx{b: oc.raw, def: nested})
 			}
@@ -178,6 +178,9 @@ func evalReal(root *lazyproto.DecodeResult, q Query) []outcome {
 }
 
 func sameOutcomes(a, b []outcome) bool {
+	if len(b) == 1 && b[0].errc == eUnconstrained {
+		return true // (b is the model)
+	}
 	if len(a) != len(b) {
 		return false
 	}
